@@ -99,6 +99,15 @@ pub fn finish(mut rep: Report, tier: Tier, t0: std::time::Instant) -> i32 {
     let mut lines = vec![];
     let mut seen: BTreeSet<String> = BTreeSet::new();
     let mut known_hits: Vec<String> = vec![];
+    // a harness-side failure is never a verdict about the repository
+    let (mach, real): (Vec<Violation>, Vec<Violation>) = std::mem::take(&mut rep.violations).into_iter().partition(|v| v.signature.starts_with("MACHINERY/"));
+    rep.violations = real;
+    for v in mach {
+        let m = format!("{}: {}", v.signature, v.description.chars().take(300).collect::<String>());
+        if !rep.machinery_errors.contains(&m) && rep.machinery_errors.len() < 20 {
+            rep.machinery_errors.push(m);
+        }
+    }
     for v in &rep.violations {
         if !seen.insert(v.signature.clone()) {
             continue;
